@@ -406,8 +406,14 @@ func runC05EngineOnce(p *C05EnginePlan, long bool) (*stats.Case, error) {
 	simnet.WaitQuiescent(sc.nodes, func() bool { return tipIs() || ip.Failed }, 150*time.Millisecond, wait)
 	time.Sleep(150 * time.Millisecond)
 	failed := ip.Failed
-	// redelivery: the peer announces a new block; the service asks again from its tip and is served the same headers
-	for round := 0; round < 3 && !tipIs(); round++ {
+	// restart: the engine and the stack are shut down and started again on the same database file (no faults now)
+	if err := sc.restartService(); err != nil {
+		return nil, err
+	}
+	// redelivery: the restarted engine asks the peer from its tip and is served the same headers; the peer also
+	// announces new blocks
+	simnet.WaitQuiescent(sc.nodes, tipIs, 150*time.Millisecond, wait)
+	for round := 0; round < 2 && !tipIs(); round++ {
 		ext := sc.u.Extend(target, 1, 0, 0x1d00ffff)
 		sc.nodes[0].MineWhenReady(ext[len(target):], true, 5*time.Second)
 		target = ext
@@ -421,10 +427,10 @@ func runC05EngineOnce(p *C05EnginePlan, long bool) (*stats.Case, error) {
 		}
 	}
 	if orphans > 0 {
-		return nil, fmt.Errorf("after a failed store (write %d) the engine stored %d successors of the failed header as ORPHAN: redelivery can never extend the chain past it (tip height %d of %d)", p.FailAt, orphans, sc.s.Services.Headers.GetTipHeight(), len(target))
+		return nil, fmt.Errorf("after a failed store (write %d) and a restart the store holds %d successors of the failed header as ORPHAN: redelivery can never extend the chain past it (tip height %d of %d)", p.FailAt, orphans, sc.s.Services.Headers.GetTipHeight(), len(target))
 	}
 	if !tipIs() {
-		return nil, fmt.Errorf("after a failed store (write %d, reached=%v) and redelivery the service did not converge: tip height %d of %d", p.FailAt, failed, sc.s.Services.Headers.GetTipHeight(), len(target))
+		return nil, fmt.Errorf("after a failed store (write %d, reached=%v), a restart and redelivery the service did not converge: tip height %d of %d", p.FailAt, failed, sc.s.Services.Headers.GetTipHeight(), len(target))
 	}
 	if err := checkStructure(rows); err != nil {
 		return nil, err
